@@ -71,9 +71,9 @@ static int count_of(const std::vector<int> &v, int x) { return (int)std::count(v
 static bool nodup(std::vector<int> v) { std::sort(v.begin(), v.end()); return std::adjacent_find(v.begin(), v.end()) == v.end(); }
 
 struct Fails {
-    std::ostream &o;
+    std::ostringstream buf;    // oracle lines are emitted after the block, never inside a Q line
     int n = 0;
-    void fail(const char *prop, const std::string &msg) { if (n++ < 6) o << "!O " << prop << " " << msg << "\n"; }
+    void fail(const char *prop, const std::string &msg) { if (n++ < 6) buf << "!O " << prop << " " << msg << "\n"; }
 };
 
 static std::string ho(int h) { return h < 0 ? "-" : std::to_string(h); }
@@ -482,7 +482,7 @@ static void run_script(const std::vector<std::string> &lines) {
         ++lineno;
         auto toks = split_ws(line);
         std::ostringstream o;
-        Fails fl{o};
+        Fails fl;
         if (toks[0] == "QLookup") {
             long seed = std::stol(toks.at(1)); int mask = std::stoi(toks.at(2));
             o << "== " << lineno << " QLookup " << toks[1] << " " << toks[2] << " -> Ok -\n";
@@ -504,6 +504,7 @@ static void run_script(const std::vector<std::string> &lines) {
             dump_state(w, o);
             if (on("C09") && !tainted) oracle_fans(w, fl, &nfans, &nfan_big);
         }
+        o << fl.buf.str();
         std::string s = o.str();
         fwrite(s.data(), 1, s.size(), stdout);
         fflush(stdout);
